@@ -14,7 +14,7 @@ def build_parser():
 
 def build_pipeline():
     srcs = (vf.module_sources("http/server", "http/common.cpp", "http/url.cpp", "http/request.cpp", "http/respond.cpp")
-            + vf.module_sources("network", exclude=("network/uart.cpp", "network/stdio_stream.cpp", "network/dns_request.cpp", "network/net_if.cpp"))
+            + vf.module_sources("network", exclude=("network/tcp_server.cpp", "network/uart.cpp", "network/stdio_stream.cpp", "network/dns_request.cpp", "network/net_if.cpp"))
             + vf.module_sources("event", "util/string.cpp", "util/buffer.cpp", "util/fd.cpp", "util/fs.cpp", "util/pid_file.cpp"))
     return vf.build("C12/pipeline_asan", [HL], srcs, mode="asan", plain_srcs=STUB)
 
@@ -28,17 +28,18 @@ def main(tier, args):
     dl = 55 if quick else 1100
     jobs = []
     # (1) parser half, engine I
-    nsplit = 6 if quick else 10
+    nsplit = 8 if quick else 10
     for s in range(nsplit):
         jobs.append(("split:%d" % s, [parser, "split", str(s), str(nsplit), "0" if quick else "1"]))
     nbytes = 3 if quick else 5
     for s in range(nbytes):
         jobs.append(("bytes:%d" % s, [parser, "bytes", str(s), str(nbytes), "5" if quick else "6"]))
-    jobs.append(("mut:0", [parser, "mut"]))
+    for s in range(3):
+        jobs.append(("mut:%d" % s, [parser, "mut", str(s), "3"]))
     # (2) pipeline half, engine H (fork per evaluation)
-    depth = 6 if quick else 8
-    for cfg in (("unix", "epoll"), ("unix", "select"), ("tcp", "epoll")):
-        jobs.append(("pipe:%s-%s" % cfg, [pipe, cfg[0], cfg[1], str(depth)]))
+    depth, maxreq = (6, 3) if quick else (8, 4)
+    for cfg in (("unix", "epoll", 0), ("unix", "select", 0), ("tcp", "epoll", 1)):     # loopback TCP: one request fewer (slower, port churn)
+        jobs.append(("pipe:%s-%s" % cfg[:2], [pipe, cfg[0], cfg[1], str(depth), str(maxreq - cfg[2])]))
     if args.only:
         jobs = [j for j in jobs if j[0] == args.only or j[0].split(":")[0] == args.only]
     os.makedirs(vf.BUILD + "/C12/sock", exist_ok=True)
@@ -52,10 +53,10 @@ def main(tier, args):
                    "(b) every byte string of length <=%d over {G,E,T,P,SP,/,:,CR,LF,H,1,.,0,x} behind 7 valid prefixes (one segment and prefix|bytes), "
                    "~230 single-field mutations of a valid request x 3 contexts x every 1-cut (2-cut if short) split: no exception, ASan/UBSan clean, feed loop terminates. "
                    "(H) real http::server::Server + TcpServer + loop (epoll, select) over a real unix-domain / loopback TCP connection, single-threaded, fork per history: "
-                   "BFS over histories of depth <=%d of: request(kind keep-alive|Connection: close|HTTP/1.0, handler completes in the callback or 1|2 loop passes later, "
-                   "sent alone | glued to the next request in one segment | cut in two segments) with <=3 requests, and loop passes; "
+                   "BFS over histories of depth <=%d with <=%d requests of: request(kind keep-alive|Connection: close|HTTP/1.0, handler completes in the callback or 1|2 loop passes later, "
+                   "sent alone | glued to the next request in one segment | cut in two segments), and loop passes; "
                    "oracle after settling: one response per delivered request, in request order (tagged bodies), nothing after the response to the closing request, EOF after it"
-                   % (2 if quick else 3, "covering subset^2" if quick else "all x covering subset both ways", 5 if quick else 6, depth),
+                   % (2 if quick else 3, "covering subset^2" if quick else "all x covering subset both ways", 5 if quick else 6, depth, maxreq),
               assumptions=["every request of a segmentation-independence stream declares Content-Length; canonical header spelling (DESIGN 1.7)",
                            "the client writes a segment, then the loop runs one pass; segments written without a pass in between coalesce into one receive",
                            "handlers complete on the loop thread (the shared Context is released from a loop callback)",
